@@ -293,6 +293,13 @@ def _checks_every_element(loop, check_call) -> bool:
         return False
     if any(isinstance(n, (ast.Continue, ast.Return)) for st in body[: idx + 1] for n in ast.walk(st)):
         return False
+    # … and the checker is not applied to some elements only: between the loop and the call there is no test of its own
+    # (`if item not in self._seen: self._check(item)` validates the new elements, the commit rejects the others too)
+    p = getattr(check_call, "_parent", None)
+    while p is not None and p is not loop:
+        if isinstance(p, (ast.If, ast.IfExp, ast.While, ast.BoolOp)):
+            return False
+        p = getattr(p, "_parent", None)
     return True
 
 
